@@ -926,7 +926,9 @@ theorem inout_passed (io : InOut) (f : Field) : letI := realNum μ
 /-- **B = μ₀·H + J and J = μ₀·M for all modes of `in_out` (also a misspelt value) and all six modelled magnet wrappers as
 getBH_level1 calls them**, generic μ ≠ 0: Cuboid, Sphere at every observer; Tetrahedron at every observer; TriangularMesh
 for every row of every batch; Cylinder and CylinderSegment whenever the four values are returned (`none` = a `cel0` call
-failed / NaN row, see `cylinder_consistent_total`, `cylseg_consistent`) -/
+failed / NaN row, see `cylinder_consistent_total`, `cylseg_consistent`).
+(audit2: the STATEMENT below has four conjuncts — Cuboid, Sphere, Tetrahedron, Cylinder; CylinderSegment is
+`inout_consistent_cylseg`, TriangularMesh is `inout_consistent_trimesh`, added by audit2 at the end of this file.) -/
 theorem inout_consistent (hμ : μ ≠ 0) (io : InOut) : letI := realNum μ
     (∀ dim pol x : V3 ℝ, ∃ b h j m, cuboidL1 io .B dim pol x = some b ∧ cuboidL1 io .H dim pol x = some h ∧
       cuboidL1 io .J dim pol x = some j ∧ cuboidL1 io .M dim pol x = some m ∧ b = vs μ h + j ∧ j = vs μ m) ∧
@@ -1168,5 +1170,200 @@ example (μ : ℝ) (S : SegSpecial) (pol : V3 ℝ) :
     (by intro k; simp only [ha]; exact far _ (-2 * k - 5) (by push_cast; ring))
   rw [h, if_pos]
   refine ⟨by simp only [hs]; norm_num, by norm_num, 2, ?_, ?_⟩ <;> (simp only [ha]; push_cast; nlinarith)
+
+/-! ## added by audit2 (second audit of the statements): what the c02sync theorems left open
+
+* `final` (third conjunct of `excitation_sync`) is a fold the driver never runs: tied to `run`, which it prints;
+* an example that APPLIES `excitation_sync` (the one above only evaluates `construct` / `run`);
+* `hasInOut` is totalised (`getD false`: a class MISSING from the regenerated table counts as "has no `in_out`", which is what
+  `inout_ignored` needs): the six rows are pinned, with the names of the core functions the models stand for;
+* "truthful" in `tetra_inout_truthful` / `trimesh_inout_truthful` means "agrees with the code's OWN test" (`tetraInside`, resp.
+  a free parameter `inside`): versions against the geometric body, and J / M under an override truthful w.r.t. ANY set;
+* TriangularMesh was missing from `inout_consistent` (its docstring names six wrappers, its statement has four);
+* the `level2-jm` driver entries use `Level2.boxBody` (integer closed box), tied to the Cuboid wrapper only by a comment:
+  proved equal to `bhjmCuboid .J` on integer data;
+* `j_in_observer_frame_on_driver_carrier` had no example that instantiates its hypotheses. -/
+
+namespace MagpyVerif.C02
+open MagpyVerif MagpyVerif.Kern MagpyVerif.Exc
+
+/-- `final` (a fold; not run by the driver) is the state of the last element of `run` (the list the driver prints and the `exc`
+stream compares), or the start state for the empty history — in every carrier, so also at `Float` -/
+theorem final_eq_run_getLast {α : Type} [Num α] (st : St α) (ops : List (Exc.Op α)) :
+    final st ops = ((run st ops).getLast?.map (·.1)).getD st := by
+  induction ops generalizing st with
+  | nil => rfl
+  | cons op ops ih =>
+    have h1 : final st (op :: ops) = final (step st op).1 ops := rfl
+    rw [h1, ih]
+    cases ops with
+    | nil => rfl
+    | cons op2 ops2 => simp [run, List.getLast?_cons]
+
+-- `excitation_sync` APPLIED: Cuboid(polarization=(0,0,1)), then a valid magnetization, a refused value, `None`, a polarization
+example : ∀ r ∈ @run ℝ (realNum 1) ⟨some ⟨0, 0, 1⟩, some (BinOp.apply .div ⟨0, 0, 1⟩ (@cPolToMag ℝ (realNum 1)))⟩
+      [.setMag (.vec ⟨3000, 0, 0⟩), .setPol .bad, .setMag .none, .setPol (.vec ⟨1, 2, 3⟩)], InSync (muSet 1) r.1 :=
+  (excitation_sync 1 false .none (.vec ⟨0, 0, 1⟩) _ _ rfl _).2.1
+
+/-- the six rows of the regenerated signature table the model of `in_out` reads: each class IS in the table (so `hasInOut … =
+false` is a fact about a signature, not the `getD false` of a missing row) and its core function is the one the model's
+`cuboidL1` / `sphereL1` / `cylinderL1` / `cylSegL1` / `tetraL1` / `trimeshL1` stand for -/
+theorem inout_table_rows :
+    Gen.InOut.table.find? (fun r => r.1 == "Cuboid") = some ("Cuboid", "BHJM_magnet_cuboid", false) ∧
+    Gen.InOut.table.find? (fun r => r.1 == "Sphere") = some ("Sphere", "BHJM_magnet_sphere", false) ∧
+    Gen.InOut.table.find? (fun r => r.1 == "Cylinder") = some ("Cylinder", "BHJM_magnet_cylinder", false) ∧
+    Gen.InOut.table.find? (fun r => r.1 == "CylinderSegment") =
+      some ("CylinderSegment", "BHJM_cylinder_segment_internal", false) ∧
+    Gen.InOut.table.find? (fun r => r.1 == "Tetrahedron") = some ("Tetrahedron", "BHJM_magnet_tetrahedron", true) ∧
+    Gen.InOut.table.find? (fun r => r.1 == "TriangularMesh") = some ("TriangularMesh", "BHJM_magnet_trimesh", true) := by
+  decide
+
+end MagpyVerif.C02
+
+namespace MagpyVerif.C02
+open MagpyVerif MagpyVerif.Kern MagpyVerif.Kern.CylSeg
+
+section
+variable (μ : ℝ)
+
+/-- `tetra_inout_truthful` against the GEOMETRIC body: for a non-degenerate tetrahedron, 'inside' given for a point of the
+convex hull of the vertices, or 'outside' for a point not in it, changes none of the four fields -/
+theorem tetra_inout_truthful_hull (io : InOut) (f : Field) (v0 v1 v2 v3 pol x : V3 ℝ)
+    (hdt : det3 (v1 - v0) (v2 - v0) (v3 - v0) ≠ 0) : letI := realNum μ
+    (io = .inside → ∃ t1 t2 t3 : ℝ, 0 ≤ t1 ∧ 0 ≤ t2 ∧ 0 ≤ t3 ∧ t1 + t2 + t3 ≤ 1 ∧
+        x = v0 + vs t1 (v1 - v0) + vs t2 (v2 - v0) + vs t3 (v3 - v0)) →
+    (io = .outside → ¬ ∃ t1 t2 t3 : ℝ, 0 ≤ t1 ∧ 0 ≤ t2 ∧ 0 ≤ t3 ∧ t1 + t2 + t3 ≤ 1 ∧
+        x = v0 + vs t1 (v1 - v0) + vs t2 (v2 - v0) + vs t3 (v3 - v0)) →
+    bhjmTetraIO io f v0 v1 v2 v3 pol x = bhjmTetra f v0 v1 v2 v3 pol x := by
+  intro hi ho
+  have key := tetraInside_iff_hull v0 v1 v2 v3 x hdt
+  apply tetra_inout_truthful μ io f v0 v1 v2 v3 pol x
+  · intro h; exact key.mpr (hi h)
+  · intro h
+    have h2 : ¬ (tetraInside v0 v1 v2 v3 x = true) := fun h3 => ho h (key.mp h3)
+    exact Bool.eq_false_iff.mpr h2
+
+open Classical in
+/-- the property's clause "J = polarization inside, 0 outside" under a truthful override, for ANY set `body` (whatever the
+vertices, also degenerate ones, and whatever the code's own test would say): with 'inside' given at a point of `body` or
+'outside' at a point not in it, J is the indicator of `body` times the polarization and M = J/μ₀.  (By definition of
+`point_inside`'s two early returns — the content is that the override is what decides.) -/
+theorem tetra_inout_override_j (io : InOut) (hio : io = .inside ∨ io = .outside) (body : V3 ℝ → Prop)
+    (v0 v1 v2 v3 pol x : V3 ℝ) (hi : io = .inside → body x) (ho : io = .outside → ¬ body x) : letI := realNum μ
+    bhjmTetraIO io .J v0 v1 v2 v3 pol x = (if body x then pol else zero3) ∧
+    bhjmTetraIO io .M v0 v1 v2 v3 pol x = vd (if body x then pol else zero3) μ := by
+  rcases hio with rfl | rfl
+  · simp only [bhjmTetraIO, pointInsideIO, if_pos (hi rfl)]; exact ⟨rfl, rfl⟩
+  · simp only [bhjmTetraIO, pointInsideIO, if_neg (ho rfl)]; exact ⟨by simp, by simp⟩
+
+open Classical in
+/-- the same for a TriangularMesh row — here it matters: the code's own test (ray casting) is NOT the geometric inside
+predicate (`trimesh_ray_test_misses_interior_point`), a truthful override w.r.t. the real body repairs J / M -/
+theorem trimesh_inout_override_j {M : Type} (io : InOut) (hio : io = .inside ∨ io = .outside) (body : V3 ℝ → Prop)
+    (meshId : MeshRow ℝ → M) (inside : M → V3 ℝ → Bool) (r : MeshRow ℝ)
+    (hi : io = .inside → body r.obs) (ho : io = .outside → ¬ body r.obs) : letI := realNum μ
+    bhjmTrimeshRow .J meshId (insideIO io inside) r = (if body r.obs then r.pol else zero3) ∧
+    bhjmTrimeshRow .M meshId (insideIO io inside) r = vd (if body r.obs then r.pol else zero3) μ := by
+  have h := trimesh_inout_inside_outside μ meshId inside r
+  simp only at h
+  rcases hio with rfl | rfl
+  · simp only [if_pos (hi rfl)]; exact ⟨h.1, h.2.1⟩
+  · simp only [if_neg (ho rfl)]
+    refine ⟨h.2.2.1, ?_⟩
+    rw [h.2.2.2.1]
+    apply V3.ext' <;> simp [vd, zero3, n]
+
+/-- **TriangularMesh as getBH_level1 calls it, all modes** (the conjunct missing from `inout_consistent`): for every field the
+call returns, row by row, the one-row function with the verdict `insideIO`, and every row satisfies B = μ₀H + J, J = μ₀M -/
+theorem inout_consistent_trimesh (hμ : μ ≠ 0) {M : Type} [DecidableEq M] (io : InOut) (meshId : MeshRow ℝ → M)
+    (inside : M → V3 ℝ → Bool) (rows : List (MeshRow ℝ)) : letI := realNum μ
+    (∀ f : Field, trimeshL1 io f meshId inside rows = some (rows.map (bhjmTrimeshRow f meshId (insideIO io inside)))) ∧
+    ∀ r ∈ rows, bhjmTrimeshRow .B meshId (insideIO io inside) r =
+        vs μ (bhjmTrimeshRow .H meshId (insideIO io inside) r) + bhjmTrimeshRow .J meshId (insideIO io inside) r ∧
+      bhjmTrimeshRow .J meshId (insideIO io inside) r = vs μ (bhjmTrimeshRow .M meshId (insideIO io inside) r) := by
+  refine ⟨fun f => ?_, fun r _ => trimesh_inout_consistent μ hμ io meshId inside r⟩
+  rw [(inout_passed μ io f).2, trimesh_inout_rowwise μ]
+end
+
+-- `tetra_inout_truthful` APPLIED: (1/4, 1/4, 1/4) lies in the unit tetrahedron, 'inside' given: B is the B of 'auto'
+example : letI := realNum 1
+    bhjmTetraIO .inside .B (⟨0, 0, 0⟩ : V3 ℝ) ⟨1, 0, 0⟩ ⟨0, 1, 0⟩ ⟨0, 0, 1⟩ ⟨0, 0, 1⟩ ⟨1/4, 1/4, 1/4⟩ =
+    bhjmTetra .B (⟨0, 0, 0⟩ : V3 ℝ) ⟨1, 0, 0⟩ ⟨0, 1, 0⟩ ⟨0, 0, 1⟩ ⟨0, 0, 1⟩ ⟨1/4, 1/4, 1/4⟩ := by
+  apply tetra_inout_truthful 1 .inside .B
+  · intro _
+    simp [tetraInside, det3, n]
+    norm_num
+  · intro h; cases h
+
+end MagpyVerif.C02
+
+namespace MagpyVerif.C02
+open MagpyVerif MagpyVerif.Kern MagpyVerif.Level2
+
+/-- one coordinate: on integers the closed-box test of `Level2.boxBody` is the Cuboid wrapper's open test inflated by 1e-15 -/
+theorem boxCoord_iff (d a : Int) (hd : 0 < d) (hd' : d ≤ 1000000000000000) :
+    (|(a : ℝ)| < (1 + 1 / 1000000000000000) * ((d : ℝ) / 2)) ↔ (-d ≤ 2 * a ∧ 2 * a ≤ d) := by
+  have hdR : (0 : ℝ) < d := by exact_mod_cast hd
+  have hdR' : (d : ℝ) ≤ 1000000000000000 := by exact_mod_cast hd'
+  constructor
+  · intro h
+    rw [abs_lt] at h
+    constructor
+    · by_contra hc
+      have : 2 * a + 1 ≤ -d := by omega
+      have hR : (2 * (a : ℝ) + 1 ≤ -(d : ℝ)) := by exact_mod_cast this
+      nlinarith [h.1]
+    · by_contra hc
+      have : d + 1 ≤ 2 * a := by omega
+      have hR : ((d : ℝ) + 1 ≤ 2 * (a : ℝ)) := by exact_mod_cast this
+      nlinarith [h.2]
+  · rintro ⟨h1, h2⟩
+    have h1R : (-(d : ℝ) ≤ 2 * (a : ℝ)) := by exact_mod_cast h1
+    have h2R : (2 * (a : ℝ) ≤ (d : ℝ)) := by exact_mod_cast h2
+    rw [abs_lt]
+    constructor <;> nlinarith
+
+/-- **the local-frame field function of the `level2-jm` driver entries IS the Cuboid wrapper model on integer data**: for
+integer edge lengths in (0, 10¹⁵] and integer observers, `bhjmCuboid .J` (the kernel model the `kern` stream ties to
+`BHJM_magnet_cuboid`) is `indicatorField (boxBody dim) pol` — the hypothesis `hF` of `j_in_observer_frame…` for the scenes the
+stream sends (before this only a comment in Model/Level2.lean) -/
+theorem boxBody_is_cuboid_mask (μ : ℝ) (dim x : V3 Int) (pol : V3 ℝ)
+    (hx : 0 < dim.x) (hy : 0 < dim.y) (hz : 0 < dim.z)
+    (hx' : dim.x ≤ 1000000000000000) (hy' : dim.y ≤ 1000000000000000) (hz' : dim.z ≤ 1000000000000000) :
+    letI := realNum μ
+    bhjmCuboid .J (⟨dim.x, dim.y, dim.z⟩ : V3 ℝ) pol ⟨x.x, x.y, x.z⟩ = if boxBody dim x then pol else zero3 := by
+  have hxR : (0 : ℝ) < dim.x := by exact_mod_cast hx
+  have hyR : (0 : ℝ) < dim.y := by exact_mod_cast hy
+  have hzR : (0 : ℝ) < dim.z := by exact_mod_cast hz
+  rw [cuboid_j_is_indicator μ _ pol _ hxR hyR hzR]
+  simp only [boxCoord_iff _ _ hx hx', boxCoord_iff _ _ hy hy', boxCoord_iff _ _ hz hz', boxBody, decide_eq_true_eq,
+    and_assoc]
+
+-- `j_in_observer_frame_on_driver_carrier` APPLIED (all hypotheses instantiated): the 3×1×1 box rotated by 90° about z, a
+-- right-handed two-pixel sensor rotated by 90° about z at the origin; pixel (1,0,0) sits at (0,1,0) — inside the rotated
+-- body, reads the polarization along its own x axis —, pixel (0,1,0) sits at (-1,0,0) — outside, reads 0
+open Level2.DriverExample in
+example (flipX : V3 Int → V3 Int) :
+    tensor flipX
+      [Entry.toM3 (.leaf (⟨[⟨0, 0, 0⟩], [⟨rotZ90, isOct_rotZ90⟩], indicatorField (boxBody ⟨3, 1, 1⟩) ⟨1, 0, 0⟩⟩ :
+        Src Oct (V3 Int)))]
+      ([(⟨[⟨0, 0, 0⟩], [⟨rotZ90, isOct_rotZ90⟩], [⟨1, 0, 0⟩, ⟨0, 1, 0⟩], [2], false⟩ : Sens Oct (V3 Int))].map Sens.toM3) =
+      [[[[⟨1, 0, 0⟩, 0]]]] := by
+  rw [j_in_observer_frame_on_driver_carrier flipX _ (boxBody ⟨3, 1, 1⟩) ⟨1, 0, 0⟩ rfl (by simp) (by simp) _
+    (by simp [Sens.WF, pixNum]; rfl) (by simp)]
+  decide
+
+end MagpyVerif.C02
+
+namespace MagpyVerif.C02
+open MagpyVerif MagpyVerif.Kern
+
+/-- the property's clause "J is identically zero for currents, dipoles and triangle sheets" made explicit for Dipole and
+Triangle (`dipole_consistent` / `triangle_consistent` only state the two relations; Circle: `circle_consistent`, Polyline row:
+`polyline_segment_consistent`).  Holds by definition of the two ported wrappers (their J / M branches return zeros); the content
+is the port, tied by the `kern` stream kinds `dipole` / `triangle` with all four fields requested. -/
+theorem dipole_triangle_j_zero (μ : ℝ) (m x v0 v1 v2 pol : V3 ℝ) : letI := realNum μ
+    bhjmDipole .J m x = zero3 ∧ bhjmDipole .M m x = zero3 ∧
+    bhjmTriangle .J v0 v1 v2 pol x = zero3 ∧ bhjmTriangle .M v0 v1 v2 pol x = zero3 := ⟨rfl, rfl, rfl, rfl⟩
 
 end MagpyVerif.C02
